@@ -274,3 +274,16 @@ impl<D: DataRef, BRT: BlindRotationAlgo> GGSWInfos for BlindRotationKey<D, BRT> 
         self.keys[0].dnum()
     }
 }
+
+/// Verification hook (cargo feature `verif-hooks`): read access to the recorded secret distribution
+/// and to the GGSW elements, so that a harness can compare a receiver before and after `read_from`.
+#[cfg(feature = "verif-hooks")]
+impl<D: Data, BRT: BlindRotationAlgo> BlindRotationKey<D, BRT> {
+    pub fn verif_dist(&self) -> &Distribution {
+        &self.dist
+    }
+
+    pub fn verif_keys(&self) -> &Vec<GGSW<D>> {
+        &self.keys
+    }
+}
